@@ -263,3 +263,153 @@ func TestVerifC09(t *testing.T) {
 		}
 	}
 }
+
+// ---------------------------------------------------------------- account registration
+
+// The fifth operation the property names: registering the ACME account (inside the first
+// issuance through the real ACMEIssuer, against the in-process mock ACME server, socket
+// free). Faults at every storage call and event callback, and in the user's NewAccountFunc
+// callback (error with a zero account, a changed contact, a panic).
+func c09AccountRun(t *testing.T, f *c09Fault, naf string) (outcome string, held []string, inMap int, nStorage, nEvent int) {
+	synctest.Test(t, func(t *testing.T) {
+		st := vNewMem()
+		ctx, cancel := context.WithCancel(context.Background())
+		st.Cancel = cancel
+		srv := vNewACME("c09", vNewCA("c09acct"))
+		srv.Validation = vACMEPreValid
+		events := 0
+		var evFault func(n int) error
+		cache, cfg := vNewCfg(st, []Issuer{}, func(c *Config, _ *CacheOptions) {
+			c.OnEvent = func(ctx context.Context, ev string, data map[string]any) error {
+				events++
+				if evFault != nil {
+					return evFault(events)
+				}
+				return nil
+			}
+		})
+		defer cache.Stop()
+		tmpl := ACMEIssuer{Email: "admin@c09.example", Agreed: true}
+		switch naf {
+		case "zero-account-error":
+			tmpl.NewAccountFunc = func(ctx context.Context, iss *ACMEIssuer, a acme.Account) (acme.Account, error) {
+				return acme.Account{}, errors.New("verif: callback refuses")
+			}
+		case "changes-contact":
+			tmpl.NewAccountFunc = func(ctx context.Context, iss *ACMEIssuer, a acme.Account) (acme.Account, error) {
+				a.Contact = []string{"mailto:other@c09.example"}
+				return a, nil
+			}
+		case "panics":
+			tmpl.NewAccountFunc = func(ctx context.Context, iss *ACMEIssuer, a acme.Account) (acme.Account, error) {
+				panic("verif: callback panics")
+			}
+		case "cancels":
+			tmpl.NewAccountFunc = func(ctx context.Context, iss *ACMEIssuer, a acme.Account) (acme.Account, error) {
+				cancel()
+				return a, nil
+			}
+		}
+		iss := srv.Issuer(cfg, tmpl)
+		cfg.Issuers = []Issuer{iss}
+		if f != nil {
+			switch f.site {
+			case "storage":
+				fired := false
+				st.Fault = func(n int, kind, key string) error {
+					if fired || n != f.k || kind == "Unlock" {
+						return nil
+					}
+					fired = true
+					switch f.kind {
+					case "panic":
+						return errVPanic
+					case "cancel":
+						return errVCancel
+					}
+					return errVInjected
+				}
+			case "event":
+				evFault = func(n int) error {
+					if n == f.k {
+						switch f.kind {
+						case "panic":
+							panic("verif: injected panic")
+						case "cancel":
+							cancel()
+							return nil
+						}
+						return errVInjected
+					}
+					return nil
+				}
+			}
+		}
+		func() {
+			defer func() {
+				if r := recover(); r != nil {
+					outcome = "panic"
+				}
+			}()
+			if err := cfg.ObtainCertSync(ctx, "acct.c09.example"); err != nil {
+				outcome = "err"
+			} else {
+				outcome = "ok"
+			}
+		}()
+		synctest.Wait()
+		held = st.HeldLocks()
+		locksMu.Lock()
+		inMap = len(locks)
+		for k := range locks {
+			delete(locks, k)
+		}
+		locksMu.Unlock()
+		nStorage, nEvent = len(st.Ops()), events
+		cancel()
+		vStopRateLimiters()
+	})
+	return
+}
+
+func TestVerifC09Account(t *testing.T) {
+	o := vOpen(t, "C09acct")
+	defer o.Close()
+	report := func(scn string, f *c09Fault, out string, held []string, inMap int) {
+		site, k, kind := "none", 0, "none"
+		if f != nil {
+			site, k, kind = f.site, f.k, f.kind
+		}
+		o.Line("run %s %s %d %s %s => %d %d", scn, site, k, kind, out, len(held), inMap)
+		if len(held) > 0 || inMap > 0 {
+			o.Mon("C09 lock-left op=account-registration", map[string]any{"scenario": scn, "site": site, "k": k, "fault": kind,
+				"outcome": out, "held_in_storage": held, "process_map_entries": inMap})
+		}
+		o.Stat("fault_runs", 1)
+		o.Stat("outcome_"+out, 1)
+	}
+	out, held, inMap, ns, ne := c09AccountRun(t, nil, "")
+	report("account", nil, out, held, inMap)
+	if out != "ok" {
+		t.Fatalf("fault-free account registration + issuance did not succeed: %s", out)
+	}
+	o.Note("points_account", map[string]int{"storage": ns, "event": ne})
+	for k := 1; k <= ns; k++ {
+		for _, kind := range []string{"err", "panic", "cancel"} {
+			f := c09Fault{"storage", k, kind}
+			out, held, inMap, _, _ := c09AccountRun(t, &f, "")
+			report("account", &f, out, held, inMap)
+		}
+	}
+	for k := 1; k <= ne; k++ {
+		for _, kind := range []string{"err", "panic", "cancel"} {
+			f := c09Fault{"event", k, kind}
+			out, held, inMap, _, _ := c09AccountRun(t, &f, "")
+			report("account", &f, out, held, inMap)
+		}
+	}
+	for _, naf := range []string{"zero-account-error", "changes-contact", "panics", "cancels"} {
+		out, held, inMap, _, _ := c09AccountRun(t, nil, naf)
+		report("account-callback-"+naf, nil, out, held, inMap)
+	}
+}
